@@ -18,6 +18,7 @@ theorem bump_prepare_up_ok (p : BumpProps) (h : Valid true p) :
   simp only at hf ⊢
   clear hdav h
   obtain ⟨hm, hm16, hm16d, ha, ha64, hap, hmp, hs0, he0, hs64, he64, hsz, htr, h16, hr⟩ := hf
+  have hszI : as_isize sz = (sz : Int) := as_isize_small' (by omega)
   simp only [↓reduceIte] at hr
   have hE1 := downAlign_dvd e a
   have hE2 := downAlign_le e a
@@ -51,39 +52,39 @@ theorem bump_prepare_up_ok (p : BumpProps) (h : Valid true p) :
     rcases hr with ⟨h1, h2, h3, h4⟩ | ⟨h1, h2, h3⟩
     · by_cases hcmp : (sz : Int) > ((e - s : Nat) : Int)
       · have : ¬ (s + sz ≤ e) := by omega
-        rs_simp
+        rs_simp [hszI]
         simp only [hcmp, this, ↓reduceIte]
       · have : s + sz ≤ e := by omega
         have := hE4 s has h1
-        rs_simp
+        rs_simp [hszI]
         simp only [hcmp, ‹s + sz ≤ e›, ↓reduceIte]
     · subst h1
       have : ¬ (e + 16 + sz ≤ e) := by omega
       have h5 : (sz : Int) > -16 := by omega
-      rs_simp
+      rs_simp [hszI]
       simp only [this, h5, ↓reduceIte]
   · simp only [c1, ↓reduceIte, Bool.false_eq_true]
     by_cases c2 : (aic && decide (a ≤ 16)) = true
     · simp only [c2, ↓reduceIte, Bool.false_eq_true]
       simp only [Bool.and_eq_true, decide_eq_true_eq] at c2
       have ha16 : a ∣ 16 := ha.dvd_of_le h16 c2.2
-      rs_simp
+      rs_simp [hszI]
       rcases hr with ⟨h1, h2, h3, h4⟩ | ⟨h1, h2, h3⟩
       · have hSe : Spec.upAlign s a ≤ e := hS4 e (Nat.dvd_trans ha16 h4) h1
         have hSE := hE4 _ hS1 hSe
         by_cases hcmp : (sz : Int) > ((e - Spec.upAlign s a : Nat) : Int)
         · have : ¬ (Spec.upAlign s a + sz ≤ e) := by omega
-          rs_simp
+          rs_simp [hszI]
           simp only [hcmp, this, ↓reduceIte]
         · have : Spec.upAlign s a + sz ≤ e := by omega
-          rs_simp
+          rs_simp [hszI]
           simp only [hcmp, ‹Spec.upAlign s a + sz ≤ e›, ↓reduceIte]
       · have hSs := upAlign_eq_self hap (Nat.dvd_trans ha16 h3)
         rw [hSs] at hS1 hS2 hS3 hS4 ⊢
         subst h1
         have : ¬ (e + 16 + sz ≤ e) := by omega
         have h5 : (sz : Int) > -16 := by omega
-        rs_simp
+        rs_simp [hszI]
         simp only [this, h5, ↓reduceIte]
     · simp only [c2, ↓reduceIte, Bool.false_eq_true]
       by_cases hov : s + (a - 1) < 2 ^ 64
@@ -99,10 +100,10 @@ theorem bump_prepare_up_ok (p : BumpProps) (h : Valid true p) :
           simp only [c3, ↓reduceIte, decide_false, Bool.false_eq_true]
           by_cases hcmp : (sz : Int) > ((e - Spec.upAlign s a : Nat) : Int)
           · have : ¬ (Spec.upAlign s a + sz ≤ e) := by omega
-            rs_simp
+            rs_simp [hszI]
             simp only [hcmp, this, ↓reduceIte]
           · have : Spec.upAlign s a + sz ≤ e := by omega
-            rs_simp
+            rs_simp [hszI]
             simp only [hcmp, ‹Spec.upAlign s a + sz ≤ e›, ↓reduceIte]
       · have hov' : 2 ^ 64 ≤ s + (a - 1) := by omega
         rw [up_align_eq_none ha hov']
